@@ -13,7 +13,7 @@ import z3
 
 from . import canon, solve
 from .interp import Interp
-from .values import (Raised, SBool, SDecStr, SFn, SInt, SObj, SStr, Unsupported, concretize, is_sym, lift_bool,
+from .values import (FrameViolation, Raised, SBool, SDecStr, SFn, SInt, SObj, SStr, Unsupported, concretize, is_sym, lift_bool,
                      lift_int, lift_str, payload)
 
 
@@ -193,6 +193,13 @@ def run(task: Task, seed=0, tier="quick"):
     I.interfere = set(getattr(task, "interfere", ()))
     try:
         _run(task, I, res, seed, tier)
+    except FrameViolation as fv:
+        res["frame_violation"] = str(fv)
+        res["error"] = f"unsupported: {fv}"
+        try:
+            _frame_replay(task, res, seed, str(fv))
+        except Exception:  # noqa: BLE001
+            pass
     except Unsupported as u:
         res["error"] = f"unsupported: {u}"
         res["trace"] = traceback.format_exc()[-1500:]
@@ -376,6 +383,37 @@ def _run(task, I, res, seed, tier):
     for nm, hyps, goal in task.extra_obligations(I, inp, code_paths):
         solve_clause(f"{task.name}: {nm}", hyps, goal)
     _crosscheck(task, res, seed, tier)
+
+
+def _frame_replay(task, res, seed, what):
+    """a path writes to state that outlives the call: confirm natively by comparing a snapshot of the library's
+    process-wide state before and after running sampled calls"""
+    from . import statewatch
+    rnd = random.Random(seed + 5)
+    before = statewatch.snapshot()
+    for _ in range(60):
+        s = task.sample(rnd)
+        if s is None:
+            s = {}
+        try:
+            task.native_code(s)
+        except Exception:  # noqa: BLE001
+            pass
+        after = statewatch.snapshot()
+        if after != before:
+            changed = statewatch.diff(before, after)
+            res["obligations"].append(obligation(
+                f"{task.name}: writes only to objects allocated during the call", "refuted", "pyvc write log + cpython", 0.0,
+                witness=dict(s, __state_changed__=changed),
+                detail=f"CONFIRMED natively: after the call the library's process-wide state differs: {changed} ({what})",
+                kind="frame"))
+            res["error"] = None
+            return
+        if not s:
+            break
+    res["obligations"].append(obligation(
+        f"{task.name}: writes only to objects allocated during the call", "refuted", "pyvc write log", 0.0, witness=None,
+        detail=f"NOWITNESS {what}; no sampled call changed the observable process-wide state", kind="frame"))
 
 
 def _crosscheck(task, res, seed, tier):
